@@ -28,9 +28,9 @@ META = {
                   "Part A, for every term of a syntax with one constructor per case of free_vars.rs (Var, Fun, Let rec/non-rec, App, Op1/Op2/OpN, arrays, enum variants, string chunks, Annotated, Sealed, Closurize, record values, RecRecord with static / included / dynamic fields, custom contracts, types: atoms, variables, forall, dict, array, arrow, record rows, enum rows with argument types and tails, Contract(term)): "
                   "C07_collect_sound_complete - the model of CollectFreeVars returns exactly the variables that occur free according to an independent inductive specification (record literals bind their static and included names in field values and annotations, not in dynamic field names; include x is an occurrence of the outer x); "
                   "C07_deps_complete_stat/_incl/_dyn and C07_deps_sound_stat - the RecordDeps entry of every static, included and dynamic field contains exactly the recursive fields free in its annotations and value; C07_deps_pre_fix_refuted - the analysis before fix a9a5295 (enum types skipped) violates this on { Ctr = Number, x | [| 'A Ctr |] = 'A 1 }. "
-                  "Part B, for flat recursive records of integer expressions (n, x, +, *, if a <= b) with all priority forms, fields without definition, dynamically named fields, contracts that depend on fields (v >= e, v != e with e over the siblings; pending contracts are thunks that are reverted and patched like values), and every override history (literals, merges of any earlier results, re-merging, an operand used several times, the empty record): "
+                  "Part B, for flat recursive records of integer expressions (n, x, +, *, if a <= b) with all priority forms, fields without definition, dynamically named fields, contracts that depend on fields (v >= e, v != e with e over the siblings; pending contracts are thunks that are reverted and patched like values), nested record literals (two levels: a field whose definition is a record literal whose bodies mention its own fields and those of the enclosing record), and every override history (literals, merges of any earlier results, re-merging, an operand used several times, the empty record): "
                   "C07_history_fields - no step panics, and after the whole history every field of every step (merge results and operands alike), read through the thunks of the mechanism model, equals - same value or same error class, same fuel - the field of the single specification record obtained by substituting the winning definitions (higher priority wins, equal priorities give the piecewise definition d1 & d2, the contracts of all operands accumulate, each definition keeps the lexical scope of its literal, every name bound late to the same final record); "
-                  "C07_override_refines, C07_eval_literal_ok, C07_merge_ok (invariant `coherent`: every revertible thunk of a record instance is cached on its own instance, dependencies known and within the field names, side filters of saturated bodies nested; preserved; abs(merge) ~ smerge(abs, abs)), C07_operands_unchanged, C07_merge_refines, C07_extends_coherent; "
+                  "C07_nested_history_fields / C07_inst_ok - reading INTO a record-valued field instantiates the literal against the enclosing record instance (a piecewise definition of records instantiates both sides and merges the instances); the inner instance is coherent and its fields equal those of the record the specification assigns to that field of the final record, so an override of an outer field is seen by the inner fields and an inner override by its inner siblings; C07_history_fields_unknown / C07_depsunknown_equiv - the same reads with every dependency unknown (hook H4) on closed histories; C07_override_refines, C07_eval_literal_ok, C07_merge_ok (invariant `coherent`: every revertible thunk of a record instance is cached on its own instance, dependencies known and within the field names, side filters of saturated bodies nested; preserved; abs(merge) ~ smerge(abs, abs)), C07_operands_unchanged, C07_merge_refines, C07_extends_coherent; "
                   "C07_vars_free / C07_cfg_partA_faithful / C07_literal_deps_agree_* - the dependency sets the mechanism uses are those of part A. "
                   "These hold for the code since fix 8192ce0 (BinaryOp::RecordInsert keeps the thunk of a dynamically named field; configuration cfg_fixed, selected by reading operation.rs/closurize.rs) and (C07_history_fields_current) for the code before it on histories without dynamically named fields; C07_dynamic_field_indirection_refuted: the earlier code gave 11 instead of 6 for the dynamically named field of `{b | default = 10, \"%{n}\" = b + 1} & {b = 5}` (the defect this property found; the model reproduced the implementation's 11). "
                   "Teeth: C07_revert_keeps_cache_panics/_refuted/_overwrite_refuted (revert = clone), C07_inplace_revert_refuted, C07_deps_incomplete_refuted/_after_override_refuted. "
@@ -38,7 +38,7 @@ META = {
                   "(B) generated override histories on the extracted mechanism model (configured as closurize.rs is, read from source), on the extracted specification and on the real interpreter (every field of every step, by value or error class; normal and with hook H4). "
                   "(O) on the implementation alone, structured records with static, nested, piecewise, dynamically named and included fields, dependencies through arithmetic, interpolation, if, arrays, functions, match, inline records, contracts depending on fields, 1-3 overriding operands in 7 merge shapes: merged = textually substituted record (whole export, and leaf by leaf when some field fails), = the same with all dependencies unknown, operands read after the merge = operands alone, merge after forcing the operands = merge.",
     "level_note": "Trusted: Coq kernel; extraction (ExtrOcamlBasic only); harness bins c07fv and nkeval; the Python generators; the reading of lazy.rs / merge.rs / fixpoint.rs / closurize.rs / eval/mod.rs in coq/Rec/Mech.v (value level: Rc<RefCell> thunks as cells of a list heap; `cached = Some rid` stands for the closure built by init_cached; saturate's explicit function + application is represented by a body that keeps its own dependency filter; constants are standard thunks; the order of fields inside a record and memoisation of evaluated thunks are not modelled - the latter is exercised by the forcing-order variants of the correspondence). "
-                  "Partial: the Coq mechanism/specification cover flat records of integer expressions; nested records, piecewise paths, includes, strings, arrays, functions and general contract expressions are covered by part A (dependency analysis, all syntax) and by the direct oracles on the implementation, not by the refinement proof; FieldDeps::Unknown (hook H4) is in the executable model and compared with the implementation, the theorems assume known dependencies. Finding fixed during the build: dynamic-field-not-recomputed (8192ce0, patch kept in proposed/C07-record-insert-keep-revertible-thunk.diff).",
+                  "Partial: the Coq mechanism/specification cover records of integer expressions nested two levels deep (the inner instance is obtained by substituting the outcomes of the enclosing instance's fields, which its immutability justifies; thunk environments are not modelled as such); a record reached through an alias (`b = a` with `a` a record), records inside nested records, and the structural comparison of two records by a contract are reported by the model as outside the fragment and not compared; piecewise paths, includes, strings, arrays, functions and general contract expressions are covered by part A (dependency analysis, all syntax) and by the direct oracles on the implementation, not by the refinement proof. Finding fixed during the build: dynamic-field-not-recomputed (8192ce0, patch kept in proposed/C07-record-insert-keep-revertible-thunk.diff).",
 }
 
 REPO = core.REPO
@@ -242,15 +242,60 @@ def corpus_lines(name):
 
 
 def parse_model_fields(s):
-    """`{0=#1,1=E:MissingDef}` -> {0: '#1', 1: 'E:MissingDef'} ; 'BAD'/'PANIC' -> str"""
+    """`{0=#1,1=E:MissingDef,2={3=#2}}` -> {0: '#1', 1: 'E:MissingDef', 2: {3: '#2'}} ; 'BAD'/'PANIC' -> str"""
     if not s.startswith("{"):
         return s
-    out = {}
-    body = s[1:-1]
-    if body:
-        for item in body.split(","):
-            k, v = item.split("=", 1)
-            out[int(k)] = v
+    out, i, n = {}, 1, len(s) - 1
+    while i < n:
+        j = s.index("=", i)
+        k = int(s[i:j])
+        i = j + 1
+        if s[i] == "{":
+            depth, e = 0, i
+            while True:
+                if s[e] == "{":
+                    depth += 1
+                elif s[e] == "}":
+                    depth -= 1
+                    if depth == 0:
+                        break
+                e += 1
+            out[k] = parse_model_fields(s[i:e + 1])
+            i = e + 2
+        else:
+            e = s.find(",", i)
+            e = n if e < 0 or e > n else e
+            out[k] = s[i:e]
+            i = e + 1
+    return out
+
+
+def leaves(fs, path=()):
+    """(path, value) for every leaf of a parsed record (paths are tuples of field numbers)"""
+    for k, v in sorted(fs.items()):
+        if isinstance(v, dict):
+            if not v:
+                yield path + (k,), "{}"
+            for x in leaves(v, path + (k,)):
+                yield x
+        else:
+            yield path + (k,), v
+
+
+def split_steps(s):
+    """split `{..}|{..{..}..}|BAD` at the top-level bars"""
+    out, depth, cur = [], 0, ""
+    for ch in s:
+        if ch == "{":
+            depth += 1
+        elif ch == "}":
+            depth -= 1
+        if ch == "|" and depth == 0:
+            out.append(cur)
+            cur = ""
+        else:
+            cur += ch
+    out.append(cur)
     return out
 
 
@@ -321,31 +366,48 @@ def part_b(ck, exe_model):
             # generated literals are closed (every variable is a field of its literal), where H4 must not matter
             ck.obligation("model:I(H4 deps unknown) = I on closed literals", "correspondence", False,
                           "history %s\nI  %s\nIu %s" % (sx[hi], i_out, iu_out))
-        steps = [parse_model_fields(x) for x in i_out.split("|")]
+        steps = [parse_model_fields(x) for x in split_steps(i_out)]
         prefix = g.history_prefix(h)
         okfields = []
         for si, fs in enumerate(steps):
             if not isinstance(fs, dict):
                 ck.obligation("model:no-panic-on-generated-history", "correspondence", False, "%s: %s" % (sx[hi], i_out))
                 continue
-            for k, v in sorted(fs.items()):
-                ck.hist("field_outcome", v if not v.startswith("#") else "Ok")
-                if v.startswith("#"):
-                    okfields.append((si, k, v))
+            for path, v in leaves(fs):
+                ck.hist("field_outcome", v if not v.startswith("#") else "Ok" if len(path) == 1 else "Ok (nested)")
+                acc = "s%d.%s" % (si, ".".join(g.LET[k] for k in path))
+                if v.startswith("#") or v == "{}":
+                    okfields.append((si, path, v))
+                elif v in ("RECFAIL", "REC", "OPAQUE"):
+                    # a record reached through an alias (`b = a` with `a` a record), a record inside a nested
+                    # record, two records compared by a contract: outside the modelled fragment
+                    ck.count("fields_outside_the_fragment_not_compared")
+                    ck.hist("outside_fragment", v)
                 else:
-                    reqs.append("\t" + esc(prefix + "s%d.%s" % (si, g.LET[k])))
-                    meta.append((hi, "field s%d.%s" % (si, g.LET[k]), expect_line(v)))
+                    reqs.append("\t" + esc(prefix + acc))
+                    meta.append((hi, "field " + acc, expect_line(v)))
         # one program reading every field predicted to have a value, operands and results alike, in a
         # generated order (operands may be forced before or after the merges that use them)
         order = rng.shuffle(list(range(len(steps))))
-        body, exp = [], []
-        for si in order:
-            mine = [(k, v) for (s2, k, v) in okfields if s2 == si]
-            body.append("r%d = { %s }" % (si, ", ".join("%s = s%d.%s" % (g.LET[k], si, g.LET[k]) for k, v in mine)) if mine
-                        else "r%d = {}" % si)
-        for si in sorted(range(len(steps)), key=lambda x: "r%d" % x):
-            mine = sorted((g.LET[k], v) for (s2, k, v) in okfields if s2 == si)
-            exp.append("\"r%d\":{%s}" % (si, ",".join("\"%s\":%s" % kv for kv in mine)))
+
+        def tree(si):
+            t = {}
+            for (s2, path, v) in okfields:
+                if s2 == si:
+                    d = t
+                    for k in path[:-1]:
+                        d = d.setdefault(g.LET[k], {})
+                    d[g.LET[path[-1]]] = ("s%d.%s" % (si, ".".join(g.LET[k] for k in path)), v)
+            return t
+
+        def src_of(t):
+            return "{ " + ", ".join("%s = %s" % (k, src_of(v) if isinstance(v, dict) else ("{}" if v[1] == "{}" else v[0]))
+                                    for k, v in t.items()) + " }" if t else "{}"
+
+        def exp_of(t):
+            return "{" + ",".join("\"%s\":%s" % (k, exp_of(v) if isinstance(v, dict) else v[1]) for k, v in sorted(t.items())) + "}"
+        body = ["r%d = %s" % (si, src_of(tree(si))) for si in order]
+        exp = ["\"r%d\":%s" % (si, exp_of(tree(si))) for si in sorted(range(len(steps)), key=lambda x: "r%d" % x)]
         for fl in ("", "depsunknown"):
             reqs.append(fl + "\t" + esc(prefix + "{ " + ", ".join(body) + " }"))
             meta.append((hi, "all defined fields" + (" (H4)" if fl else ""), "OK {" + ",".join(exp) + "}"))
@@ -609,13 +671,18 @@ def run(ck):
         ck.sample(s)
     ck.coverage["rule"] = ("A: corpus + every .ncl file of /repo + generated programs over a pool of 5 names (all binders, record forms, "
                            "type forms); non-trivial = some field has a dependency.  B: histories of 2-4 literals over <= 5 field names "
-                           "(all priority forms, valueless fields, bodies of depth <= 3 over sibling names) and 1-4 merges of earlier steps "
-                           "(re-merging, same operand twice, empty record).  O: structured records with static / nested / piecewise / "
-                           "dynamic / included fields, 1-3 overriding operands, 7 merge shapes.")
-    ck.coverage["partial"] = ("refinement proof for flat records of integer expressions (with priorities, valueless and dynamically named fields, "
-                              "comparison contracts depending on fields); nested / piecewise / included fields, strings, arrays, functions, general contracts: "
-                              "dependency analysis proved for the whole syntax, overriding behaviour checked by the direct oracles only; "
-                              "FieldDeps::Unknown compared, not proved")
+                           "(all priority forms, valueless fields, one literal in five with a dynamically named field, one field in six a nested record literal, one field in four with "
+                           "1-2 comparison contracts whose bound mentions siblings, bodies of depth <= 3 referring mostly to lower-numbered "
+                           "names so that one history in ~7 is cyclic) and 1-4 merges of earlier steps (re-merging, same operand twice, empty "
+                           "record); histories whose worst-case evaluation cost on the non-memoising extracted evaluators exceeds 5e6 steps "
+                           "are discarded (~17%, cyclic ones with long bodies); every field of every step is compared (values in one program "
+                           "with a generated forcing order, failing fields one program each; the whole program also with hook H4).  "
+                           "O: structured records with static / nested / piecewise / dynamic / included fields, typed names and one global "
+                           "reference order (1 reference in 60 against it), 1-3 overriding operands with rising priorities, 7 merge shapes.")
+    ck.coverage["partial"] = ("refinement proof for records of integer expressions nested two levels deep (with priorities, valueless and "
+                              "dynamically named fields, comparison contracts depending on fields, known or unknown dependencies); record aliases, "
+                              "deeper nesting, piecewise paths, included fields, strings, arrays, functions, general contracts: dependency analysis "
+                              "proved for the whole syntax, overriding behaviour checked by the direct oracles only")
     ck.trusted += ["extraction: ExtrOcamlBasic only", "harness bins c07fv (prints real terms and RecordDeps), nkeval",
                    "generators checks/c07_gen.py (SplitMix64, VERIF_SEED)", "hooks: H1 (fuel), H4 (deps unknown)"]
 
